@@ -45,12 +45,26 @@ def run(rep, tier, seed):
         scripts += ex
     for i in range(6 if tier == "quick" else 100):
         scripts.append(sessions.full_dir_session(rng, "root"))
-    judged = sessions.run_judged(scripts, flags=("tree",), shards=16)
+    judged = sessions.run_judged(scripts, flags=("tree", "infos"), shards=16)
+    nospace_judged = 0
     for jd in judged:
         f = sc.Findings(jd)
         rep.count()
-        if sc.report(rep, jd, f, ("tree", "match"), "C01"):
+        ok = sc.report(rep, jd, f, ("tree", "match"), "C01")
+        # "one of the documented error kinds that applies": the abstract tree admits NotEnoughSpace anywhere; whether it
+        # applied is decided on the raw image (free clusters, room in the fixed root)
+        upto = f.stop_at if f.stop_at is not None else len(jd.ops)
+        for oi, o in enumerate(jd.ops[:upto]):
+            if o.kind == "err" and o.payload.startswith("NotEnoughSpace"):
+                nospace_judged += 1
+                msg = sc.unjustified_nospace(jd, oi, o)
+                if msg:
+                    ok = False
+                    rep.violation("[C01] " + msg, {"script": sc.script_prefix(jd, oi), "op_index": oi})
+                    break
+        if ok:
             rep.distinct(tuple(jd.script[6:]))
+    rep.cov["nospace_outcomes_judged"] = nospace_judged
     rep.cov["traces_validated_against_impl"] = len(judged)
     rep.cov["distribution"] = sc.distribution(judged)
     rep.cov["rule"] = ("seeded random admissible namespace histories (60% valid ops, rest error-provoking: missing parents, wrong kinds, "
